@@ -334,9 +334,45 @@ def run(ctx):
                     break
         if ok:
             st["agreed"] += 1
+    # (3) the Gallina model of get_value (model/Funcs.v) against the real code, call by call; and the case tables
+    import json as _json
+    import subprocess as _sp
+    import sys as _sys
+    from .common import VERIF, COQ, BUILD
+    fd = os.path.join(VERIF, "tools", "funcsdiff")
+    env = dict(os.environ, FUNCS_COQ=COQ, FSHARNESS=os.path.join(BUILD, "harness", "release", "fsharness"), TMPDIR=ctx.scratch, TZ="UTC")
+    outj = os.path.join(ctx.scratch, "funcsdiff.json")
+    ncalls = 2500 if ctx.tier == "quick" else 40000
+    p_ = _sp.run([_sys.executable, os.path.join(fd, "funcsdiff.py"), "--seed", str(ctx.seed), "--n", str(ncalls), "--jobs", "12", "--datetime", str(400 if ctx.tier == "quick" else 6000), "--json", outj],
+                 stdout=_sp.PIPE, stderr=_sp.STDOUT, env=env, timeout=3000)
+    if not os.path.exists(outj):
+        ctx.violation("correspondence-mismatch", "the model/implementation comparison did not run: %s" % p_.stdout.decode("utf-8", "replace")[-400:], input={}, concrete=False,
+                      correspondence="function::get_value (harness) vs model.Funcs.get_value")
+    else:
+        fdres = _json.load(open(outj))
+        st["evaluations"] += fdres["cases"]
+        st["agreed"] += fdres["agree"]
+        st["hist"]["model_calls_equal"] = fdres["agree"]
+        st["hist"]["model_calls_unmodelled_libm_case_chrono"] = fdres["unmodelled"]
+        for pn in fdres["panics"]:
+            ctx.violation("impl-violates-spec", "function::get_value panics: %s" % pn["message"][:160], input={"function": pn["call"][0], "arg": pn["call"][1], "args": pn["call"][2]})
+        for mm in fdres["mismatches"]:
+            ctx.violation("correspondence-mismatch", "the real get_value and model.Funcs.get_value differ", input={"function": mm["call"][0], "arg": mm["call"][1], "args": mm["call"][2]},
+                          observed=mm["real"], model=mm["model"], concrete=False, correspondence="function::get_value (harness) vs model.Funcs.get_value")
+        if fdres["datetime_status"]:
+            ctx.violation("correspondence-mismatch", "parse_datetime differs from model.Datetime (see funcsdiff --datetime): %s" % p_.stdout.decode("utf-8", "replace")[-300:], input={}, concrete=False,
+                          correspondence="util::datetime::parse_datetime (harness) vs model.Datetime.parse_datetime")
+    # the single-character case tables of model/CaseTab.v are read off the real code: regenerate and compare
+    gen_out = os.path.join(ctx.scratch, "CaseTab_regen.v")
+    g_ = _sp.run([_sys.executable, os.path.join(fd, "gen_case.py"), gen_out], stdout=_sp.PIPE, stderr=_sp.STDOUT, env=env, timeout=900)
+    if g_.returncode != 0 or not os.path.exists(gen_out) or open(gen_out).read() != open(os.path.join(COQ, "model", "CaseTab.v")).read():
+        ctx.violation("correspondence-mismatch", "model/CaseTab.v is not what the real to_lowercase / to_uppercase produce now: %s" % g_.stdout.decode("utf-8", "replace")[-300:], input={}, concrete=False,
+                      correspondence="str::to_lowercase / to_uppercase (harness) vs model.CaseTab")
+    else:
+        st["hist"]["case_table_code_points_revalidated"] = 1
     ctx.coverage.update(
         evaluations=st["evaluations"], distinct_nontrivial=len(st["distinct"]), traces_validated_against_impl=st["agreed"],
-        rule="each documented scalar function x argument strings (empty, ASCII, multi-byte, combining marks, Unicode white space, numeric strings negative/fractional/huge/with exponent, positions and lengths in and out of range for SUBSTR, overlapping needles for REPLACE, dates at month/year ends) through the real function::get_value (harness), compared exactly with the documented value (LOG/LN/EXP/POWER: 1e-12 relative); a wrong-kind argument must give an empty value or a status-2 diagnostic, never a crash; through the binary: compositions F(G(H(name))) to depth 3 on generated entries must equal the composition of the documented functions, and numeric/date functions on size and modified. non-trivial = a call whose documented value is fixed by the documentation",
+        rule="each documented scalar function x argument strings (empty, ASCII, multi-byte, combining marks, Unicode white space, numeric strings negative/fractional/huge/with exponent, positions and lengths in and out of range for SUBSTR, overlapping needles for REPLACE, dates at month/year ends) through the real function::get_value (harness), compared exactly with the documented value (LOG/LN/EXP/POWER: 1e-12 relative); a wrong-kind argument must give an empty value or a status-2 diagnostic, never a crash; the Gallina model model.Funcs.get_value is evaluated on generated calls (strings with every Unicode white-space character, case-mapping specials, numerals at the i32/i64/u64/f64 limits, base64 with and without padding, dates) and must agree with the real get_value in outcome class, variant type, printed text and diagnostic; model.Datetime.parse_datetime likewise; the case tables are regenerated from the real code; through the binary: compositions F(G(H(name))) to depth 3 on generated entries must equal the composition of the documented functions, and numeric/date functions on size and modified. non-trivial = a call whose documented value is fixed by the documentation",
         samples=st["samples"], distribution=dict(st["hist"]))
     return ctx.finish(trusted=["Unicode case mapping is compared on ASCII, Latin-1/Extended-A, Greek and Cyrillic letters and caseless scripts only; libm results with a tolerance",
                                "cases the documentation leaves open (SUBSTR position 0 or length 0, REPLACE with an empty needle) are counted and not judged"])
